@@ -15,6 +15,23 @@ Ascending(s)  == \A i \in 1..(Len(s) - 1) : s[i] <= s[i+1]
 Count(s, v)   == Cardinality({ i \in 1..Len(s) : s[i] = v })
 SameBag(s, t) == Len(s) = Len(t) /\ \A v \in SeqSet(s) \cup SeqSet(t) : Count(s, v) = Count(t, v)
 
+(* ---- the ints helpers (ints/ints.go): pure functions of one or two slices; a.xs and a.ys are the arguments ---- *)
+RECURSIVE LexCmp(_, _, _)
+LexCmp(x, y, i) == IF i > Len(x) /\ i > Len(y) THEN 0 ELSE IF i > Len(x) THEN -1 ELSE IF i > Len(y) THEN 1
+                   ELSE IF x[i] > y[i] THEN 1 ELSE IF x[i] < y[i] THEN -1 ELSE LexCmp(x, y, i + 1)
+RECURSIVE SumOf(_)
+SumOf(x) == IF x = <<>> THEN 0 ELSE Head(x) + SumOf(Tail(x))
+IntsOps == {"IntsEqual", "IntsCompare", "IntsHasPrefix", "IntsMax", "IntsMin", "IntsSum", "IntsReverse", "IntsAdd"}
+IntsWant(a) ==
+    CASE a.op = "IntsEqual"     -> RBool(a.xs = a.ys)
+      [] a.op = "IntsCompare"   -> RInt(LexCmp(a.xs, a.ys, 1))
+      [] a.op = "IntsHasPrefix" -> RBool(Len(a.ys) <= Len(a.xs) /\ SubSeq(a.xs, 1, Len(a.ys)) = a.ys)
+      [] a.op = "IntsMax"       -> RInt(Max(SeqSet(a.xs)))
+      [] a.op = "IntsMin"       -> RInt(Min(SeqSet(a.xs)))
+      [] a.op = "IntsSum"       -> RInt(SumOf(a.xs))
+      [] a.op = "IntsReverse"   -> [kind |-> "seq", s |-> [i \in 1..Len(a.xs) |-> a.xs[Len(a.xs) + 1 - i]], i |-> 0, b |-> FALSE]
+      [] a.op = "IntsAdd"       -> [kind |-> "seq", s |-> [i \in 1..Len(a.xs) |-> a.xs[i] + a.ys[i]], i |-> 0, b |-> FALSE]
+
 (* "" if the logged outcome of event e is what the specification prescribes from table v *)
 Judge(v, e) ==
     LET a == e.a IN
@@ -23,6 +40,8 @@ Judge(v, e) ==
          ELSE IF ~Ascending(e.r.s) THEN "Sort: output not ascending"
          ELSE IF ~SameBag(e.r.s, a.xs) THEN "Sort: output is not a permutation of the input"
          ELSE ""
+    ELSE IF a.op \in IntsOps THEN
+         (IF e.res # "ok" THEN e.res ELSE IF e.r # IntsWant(a) THEN "ints helper: result differs from the definition" ELSE "")
     ELSE IF ~Enabled(v, a) THEN "HARNESS: action not enabled"
     ELSE LET want == Res(v, a)  v2 == Eff(v, a) IN
          IF want.kind = "refuse" THEN
@@ -48,7 +67,7 @@ TStep ==
             /\ st' = [st EXCEPT !.segs = @ + 1]
        ELSE IF dead THEN UNCHANGED <<vals, dead, bad, st>>
        ELSE LET why == Judge(vals, Ev) IN
-            /\ vals' = IF Ev.a.op = "Sort" \/ ~Enabled(vals, Ev.a) THEN vals ELSE Eff(vals, Ev.a)
+            /\ vals' = IF Ev.a.op = "Sort" \/ Ev.a.op \in IntsOps \/ ~Enabled(vals, Ev.a) THEN vals ELSE Eff(vals, Ev.a)
             /\ dead' = (why # "")
             /\ bad' = IF why = "" THEN bad ELSE Note(bad, [seg |-> Ev.seg, l |-> l, why |-> why \o " [" \o Ev.a.op \o "]"])
             /\ st' = [st EXCEPT !.ops = @ + 1,
